@@ -338,7 +338,7 @@ func runHistory(c *Ctx, genName string, idx int, hooks *historyHooks) {
 			model.Apply(t, ui)
 			added = txnInfo(t, ui, gcfg.HashSize(), gcfg.ExactLog)
 		case "compactall":
-			if rng.Chance(0.3) {
+			if (idx*7+op)%10 < 3 { // (not drawn from rng: the histories stay what they were before this variant existed)
 				// with an expiry configuration that expires nothing (every update index
 				// is >= 1): the same compaction, and the only one that rewrites a stack
 				// of a single table
